@@ -21,6 +21,13 @@ Theorem C17_parse_total : forall (m : build) (data : bytes),
 Proof. exact parse_total. Qed.
 Print Assumptions C17_parse_total.
 
+(* Debug and release builds of the current reader give the same answer on
+   every input: no usize addition overflows any more. *)
+Theorem C17_mode_irrelevant : forall (data : bytes), N.of_nat (length data) < I63 ->
+  parse_write_request (current Release) data = parse_write_request (current Debug) data.
+Proof. exact mode_irrelevant. Qed.
+Print Assumptions C17_mode_irrelevant.
+
 (* The reader before the repair (commit 10ed38f) is refuted by a length varint
    near 2^64: panic in debug builds, out-of-range slice or endless loop in
    release builds.  The same inputs are answered with an error today. *)
@@ -90,6 +97,17 @@ Theorem C17_convert_total : forall r : request,
   end.
 Proof. exact convert_total. Qed.
 Print Assumptions C17_convert_total.
+
+(* The HTTP handler answers every body (decompressed or undecodable) with a
+   status code: 204, 400 or 500 — never a panic, never a hang. *)
+Theorem C17_handler_total : forall (m : build) (body : option bytes),
+  (forall d, body = Some d -> N.of_nat (length d) < I63) ->
+  match handle m body with
+  | H204 | H400 | H500 => True
+  | HPanic | HHang => False
+  end.
+Proof. exact handle_total. Qed.
+Print Assumptions C17_handler_total.
 
 (* what "metric name" and "the value of a label" mean *)
 Theorem C17_metric_name_is_first_name_label : forall ls,
@@ -174,3 +192,23 @@ Theorem C17_otlp_modulo_known : forall (r : oreq) (b : obatch),
           (all_tagged r) (ob_rows b).
 Proof. exact otlp_modulo_known. Qed.
 Print Assumptions C17_otlp_modulo_known.
+
+(* OTLP labels: the label of key k in the row of a data point is the last value
+   its own attributes give to k, otherwise what its resource says (the last
+   resource attribute of that key); nothing else. *)
+Theorem C17_otlp_labels : forall (t : tagged) (k : bytes),
+  map_get k (dp_labels (point_of t))
+  = match kv_last k (src_attrs (tg_src t)) with
+    | Some v => Some v
+    | None => map_get k (tg_res t)
+    end.
+Proof. exact otlp_labels. Qed.
+Print Assumptions C17_otlp_labels.
+
+Theorem C17_otlp_resource_labels : forall (r : oreq) (t : tagged),
+  In t (all_tagged r) ->
+  exists rm, In rm r /\
+    forall k, map_get k (tg_res t)
+              = match rm_resource rm with Some a => kv_last k a | None => None end.
+Proof. exact otlp_resource_labels. Qed.
+Print Assumptions C17_otlp_resource_labels.
